@@ -136,3 +136,11 @@ func AfterFunc(ctx Context, f func()) (stop func() bool) {
 	})
 	return func() bool { return !stopped.Swap(true) }
 }
+
+func WithTimeoutCause(parent Context, d time.Duration, cause error) (Context, CancelFunc) {
+	return WithTimeout(parent, d)
+}
+
+func WithDeadlineCause(parent Context, d time.Time, cause error) (Context, CancelFunc) {
+	return WithDeadline(parent, d)
+}
